@@ -92,6 +92,22 @@ fn check_aggregates(set: &HpoSet, members: &BTreeSet<u32>, m: &Model, cats: &BTr
     Ok(())
 }
 
+/// `cmp_set` when `want` may contain ids that are not terms (a replacement may name such an id): those
+/// sets can only be observed through len / contains, every resolving accessor is documented to panic.
+fn cmp_set_ids(s: &HpoSet, want: &BTreeSet<u32>, before: &BTreeSet<u32>, m: &Model, what: &str) -> CheckResult {
+    if want.iter().all(|t| m.has(*t)) {
+        return cmp_set(s, want, what);
+    }
+    ensure!(s.len() == want.len(), format!("set/{what}/len"), "{what}: len {} for expected ids {want:?}", s.len());
+    for id in want {
+        ensure!(s.contains(&HpoTermId::from_u32(*id)), format!("set/{what}/contains"), "{what}: contains({id}) is false, expected ids {want:?}");
+    }
+    for id in before.difference(want) {
+        ensure!(!s.contains(&HpoTermId::from_u32(*id)), format!("set/{what}/contains"), "{what}: the replaced member {id} is still in the set, expected ids {want:?}");
+    }
+    Ok(())
+}
+
 pub fn check(c: &Case, stats: &mut Stats) -> CheckResult {
     let ont = match build_path(&c.facts, c.path, &JaxNoise::default()) {
         Ok(o) => o,
@@ -126,10 +142,13 @@ pub fn check(c: &Case, stats: &mut Stats) -> CheckResult {
     cmp_set(&s2, &want, "remove_obsolete")?;
     // replacement
     let want: BTreeSet<u32> = members.iter().map(|t| m.replacement[m.i(*t)].unwrap_or(*t)).collect();
-    cmp_set(&set.with_replaced_obsolete(), &want, "with_replaced_obsolete")?;
+    cmp_set_ids(&set.with_replaced_obsolete(), &want, &members, &m, "with_replaced_obsolete")?;
     let mut s2 = HpoSet::new(&ont, group.clone());
     s2.replace_obsolete();
-    cmp_set(&s2, &want, "replace_obsolete")?;
+    cmp_set_ids(&s2, &want, &members, &m, "replace_obsolete")?;
+    if !want.iter().all(|t| m.has(*t)) {
+        stats.label("replacement-names-an-id-that-is-not-a-term");
+    }
     // the original set is untouched by the copying variants
     cmp_set(&set, &members, "original-after-copying-ops")?;
     check_aggregates(&set, &members, &m, &cats, "")?;
@@ -141,6 +160,7 @@ pub fn check(c: &Case, stats: &mut Stats) -> CheckResult {
         let mut muts_after_read = 0;
         for (step, (op, p)) in c.ops.iter().enumerate() {
             stats.eval(1);
+            let before_step = cur.clone();
             let r = guarded(|| match op % 7 {
                 0 => {}
                 1 => {
@@ -173,9 +193,13 @@ pub fn check(c: &Case, stats: &mut Stats) -> CheckResult {
             if op % 7 != 0 && reads > 0 {
                 muts_after_read += 1;
             }
-            // replacements may name ids that are not terms: such members cannot be in a set
-            ensure!(cur.iter().all(|t| m.has(*t)), "harness/bad-case", "sequence reaches an id that is not a term");
             let what = format!("sequence/step{}-op{}", step.min(3), op % 7);
+            // a replacement may name an id that is not a term: the set then holds an id that no
+            // resolving accessor can serve (documented panics); the sequence ends there
+            if !cur.iter().all(|t| m.has(*t)) {
+                cmp_set_ids(&obj, &cur, &before_step, &m, &what)?;
+                break;
+            }
             cmp_set(&obj, &cur, &what)?;
             check_aggregates(&obj, &cur, &m, &cats, "/sequence")?;
         }
@@ -224,7 +248,7 @@ pub fn check(c: &Case, stats: &mut Stats) -> CheckResult {
 
 fn strategy(tier: Tier) -> BoxedStrategy<Case> {
     let max = if tier == Tier::Quick { 18 } else { 50 };
-    let cfg = GenCfg::small().terms(2, max).recs(6).standard().with_flags(false).names(NameMode::Plain);
+    let cfg = GenCfg::small().terms(2, max).recs(6).standard().with_flags(true).names(NameMode::Plain);
     // large sets: more members than an id group stores inline (30)
     let big = GenCfg::small().terms(44, 72).recs(3).standard().with_flags(false).names(NameMode::Plain);
     let mk = |(facts, picks, path, ops): (Facts, Vec<u16>, PathSel, Vec<(u8, u16)>)| {
@@ -247,7 +271,7 @@ impl Property for C13 {
         "C13"
     }
     fn rule(&self) -> String {
-        "Generated: ontologies (built with defaults through own v1/v2/v3 bytes, as_bytes round trip, JAX files or the Builder, so categories and modifier roots are defined) with obsolete terms, replacements pointing to existing terms (members, non-members, the term itself), modifier branches and records of all kinds; member sets of 0-12 terms drawn with repetition (empty sets, ancestors together with descendants), one case in 13 with 44-72 terms and 30-90 picks (more than the 30 members an id group stores inline). Oracle on the reference model: child_nodes = members without a member among their descendants; without_modifier/remove_modifier drop exactly members that are or descend from a modifier root; without_obsolete/remove_obsolete drop exactly flagged members; with_replaced_obsolete/replace_obsolete map exactly the members naming a replacement (collisions shrink the set); gene/omim/orpha id sets = unions over members; categories() = per-category member counts; information_content gene/omim = -ln(|union|/N) (0 rule; 1e-5); each in-place method equals its copying twin; len/is_empty/contains/get/iter/Extend agree with the member set; copying methods leave the set untouched. Half of the cases additionally drive ONE set object through 1-8 operations (read aggregates / remove_modifier / remove_obsolete / replace_obsolete / extend / child_nodes / continue on a copy), comparing members and all aggregates with the model after every step (state kept inside the object between calls). evaluations = set operations. Non-trivial = set contains an ancestor/descendant pair, an obsolete and a replaced member; distinct by hash of the case.".into()
+        "Generated: ontologies (built with defaults through own v1/v2/v3 bytes, as_bytes round trip, JAX files or the Builder, so categories and modifier roots are defined) with obsolete terms, replacements pointing to existing terms (members, non-members, the term itself) and to ids that are not terms (then only len / contains are observed), modifier branches and records of all kinds; member sets of 0-12 terms drawn with repetition (empty sets, ancestors together with descendants), one case in 13 with 44-72 terms and 30-90 picks (more than the 30 members an id group stores inline). Oracle on the reference model: child_nodes = members without a member among their descendants; without_modifier/remove_modifier drop exactly members that are or descend from a modifier root; without_obsolete/remove_obsolete drop exactly flagged members; with_replaced_obsolete/replace_obsolete map exactly the members naming a replacement (collisions shrink the set); gene/omim/orpha id sets = unions over members; categories() = per-category member counts; information_content gene/omim = -ln(|union|/N) (0 rule; 1e-5); each in-place method equals its copying twin; len/is_empty/contains/get/iter/Extend agree with the member set; copying methods leave the set untouched. Half of the cases additionally drive ONE set object through 1-8 operations (read aggregates / remove_modifier / remove_obsolete / replace_obsolete / extend / child_nodes / continue on a copy), comparing members and all aggregates with the model after every step (state kept inside the object between calls). evaluations = set operations. Non-trivial = set contains an ancestor/descendant pair, an obsolete and a replaced member; distinct by hash of the case.".into()
     }
     fn assumptions(&self) -> Vec<String> {
         vec!["replacements name existing terms (a set holding an id that is not a term is outside the documented domain of HpoSet)".into()]
@@ -259,7 +283,7 @@ impl Property for C13 {
         }
     }
     fn required_labels(&self, _tier: Tier) -> Vec<&'static str> {
-        vec!["nontrivial", "members>30", "empty-set", "ancestor-and-descendant-members", "replacement-collides-with-member", "modifier-member", "modifier-root-member", "replaced-but-not-obsolete-member", "sequence:mutation-after-aggregate-read", "members>255"]
+        vec!["nontrivial", "members>30", "empty-set", "ancestor-and-descendant-members", "replacement-collides-with-member", "modifier-member", "modifier-root-member", "replaced-but-not-obsolete-member", "sequence:mutation-after-aggregate-read", "members>255", "replacement-names-an-id-that-is-not-a-term"]
     }
     fn run_generated(&self, tier: Tier, seed: u64, n: u64, stats: &mut Stats) -> Option<(Value, Failure)> {
         run_typed(strategy(tier), seed, n, stats, check)
